@@ -96,7 +96,8 @@ def build_check(cid, cfg):
     d = os.path.join(BUILD, cfg)
     hsrc = [os.path.join(VERIF, spec['src']), os.path.join(VERIF, 'mc', 'mc.cpp')]
     deps = hsrc + glob.glob(os.path.join(VERIF, 'mc', '*.hpp')) + glob.glob(os.path.join(VERIF, 'ref', '*.hpp'))
-    hh = hashlib.sha256((rhash + sha_files(deps) + ' '.join(c['flags'])).encode()).hexdigest()
+    defs = spec.get('defs', [])
+    hh = hashlib.sha256((rhash + sha_files(deps) + ' '.join(c['flags'] + defs)).encode()).hexdigest()
     exe = os.path.join(d, cid.lower())
     stamp = exe + '.stamp'
     with open(os.path.join(d, '.lock.' + cid), 'w') as lk:
@@ -108,7 +109,7 @@ def build_check(cid, cfg):
         mco = os.path.join(d, 'mc.%s.o' % cid)
         cmds = [
             [c['cxx']] + COMMON + c['flags'] + ['-I' + VERIF, '-c', hsrc[1], '-o', mco],
-            [c['cxx']] + COMMON + c['flags'] + ['-fno-access-control', '-I' + os.path.join(REPO, 'src'), '-I' + VERIF, '-c', hsrc[0], '-o', exe + '.o'],
+            [c['cxx']] + COMMON + c['flags'] + defs + ['-fno-access-control', '-I' + os.path.join(REPO, 'src'), '-I' + VERIF, '-c', hsrc[0], '-o', exe + '.o'],
         ]
         with ThreadPoolExecutor(2) as ex:
             rs = list(ex.map(run, cmds))
